@@ -2,6 +2,8 @@ mod explore;
 mod extract;
 mod selfcheck;
 mod pipeline;
+mod prog;
+mod refmodel;
 mod report;
 #[allow(dead_code, clippy::all)]
 #[path = "../vendor/serde_case.rs"]
@@ -25,6 +27,29 @@ fn main() {
             println!("extractor self-check: {n} snapshot outputs, {} rejected", fails.len());
             if fails.is_empty() { 0 } else { 2 }
         }
+        "gen" => {
+            // tsmc gen <lang> <file.rs> [prefixed]: run the pipeline on a file and print output + extracted model
+            let lang = pipeline::Lang::from_name(&rest[0]).expect("language");
+            let src = std::fs::read_to_string(&rest[1]).expect("read source");
+            let cfg = if rest.get(2).map(|s| s == "prefixed").unwrap_or(false) { pipeline::Cfg::prefixed() } else { pipeline::Cfg::plain() };
+            match refmodel::run_source(&src, lang, &cfg) {
+                Ok(ok) => {
+                    println!("{}", ok.text);
+                    println!("---- extracted ----\n{:#?}", ok.out.defs);
+                    println!("helpers: {:?} imports: {:?} aux: {:?}", ok.out.helper_defs, ok.out.imports, ok.out.aux_names);
+                    0
+                }
+                Err((f, _)) => {
+                    println!("FAIL {}: {}", f.class(), f.describe());
+                    if let refmodel::RunFail::Extract { text, .. } = &f {
+                        println!("{text}");
+                    }
+                    1
+                }
+            }
+        }
+        "C01" => props::c01::run(rest),
+        "C02" => props::c02::run(rest),
         "C13" => props::c13::run(rest),
         "C16" => props::c16::run(rest),
         "C18" => props::c18::run(rest),
